@@ -7,10 +7,11 @@ import gen as G
 import tmh
 
 PROP = 'C03'
-LEAN_MODULES = ['BR.Props.C03']
+LEAN_MODULES = ['BR.Props.C03', 'BR.Props.C03Band']
 THEOREMS = ['BR.C03.ofTAA_coherent', 'BR.C03.ofTAA_wf', 'BR.C03.ofTM_coherent', 'BR.C03.result_ok', 'BR.C03.step_ok',
             'BR.C03.history_coherent', 'BR.C03.history_from_empty', 'BR.C03.write_tm_read_taa',
-            'BR.Rot.exp3_log3', 'BR.Rot.exp3_isRot', 'BR.Rot.isRot_mul', 'BR.Rot.quatToRot_isRot', 'BR.Rot.hat_vee_log3']
+            'BR.Rot.exp3_log3', 'BR.Rot.exp3_isRot', 'BR.Rot.isRot_mul', 'BR.Rot.quatToRot_isRot', 'BR.Rot.hat_vee_log3',
+            'BR.C03B.rod_sub_one_entry_bound', 'BR.C03B.band_roundtrip_bound']
 TIE = ('K: hand-written model lean/BR/Model/Tm.lean of class tm (constructors, setters, operators, frame helpers); every run replays the same operation '
        'histories on real tm objects and on the Float instance of the model (compiled driver) and compares gTM()/gTAA() of the affected object after every step; '
        'the coherence predicate itself is evaluated on the real objects after every step (falsifier).')
@@ -21,7 +22,7 @@ TRUSTED = ['Lean 4.33 kernel + Mathlib v4.33 (axioms: propext, Classical.choice,
 ASSUMPTIONS = ['objects built from valid poses (finite, rigid matrices, non-zero quaternions)']
 RULE = ('operation histories over the property alphabet; exhaustive over a fixed list of concrete ops (palette angles 0, 1e-7, 1, pi-1e-3, +-(2pi+0.5)) up to a fixed length from several start pairs, '
         'then random histories up to length 12; distinct = distinct histories; non-trivial = at least one op goes through TMtoTAA or changes a rotation entry')
-SAMPLED = ['coherence inside the 1e-6 cut-off band (|TM - exp(TAA)| <= 1e-6 there): measured on the implementation, bound not yet a theorem']
+SAMPLED = ['coherence inside the 1e-6 cut-off band along a whole history (the one-step bound |R - exp(log R)| <= theta + theta^2/2 is a theorem; its propagation through histories is measured on the implementation)']
 
 PAL = [0.0, 1e-7, 1.0, math.pi - 1e-3, 2 * math.pi + 0.5]
 
